@@ -15,7 +15,8 @@ VERIF = os.path.dirname(os.path.dirname(os.path.abspath(__file__)))
 REPO = os.environ.get("VERIF_REPO", "/repo")
 CACHE = os.path.join(VERIF, ".cache")
 COQ = os.path.join(VERIF, "coq")
-TARGET = os.path.join(CACHE, "target")
+TARGET = os.environ.get("VERIF_TARGET") or os.path.join(CACHE, "target")
+HARNESS_DIR = os.environ.get("VERIF_HARNESS_DIR") or os.path.join(VERIF, "harness")
 VHARNESS = os.path.join(TARGET, "debug", "vharness")
 GITAI = os.path.join(TARGET, "debug", "git-ai")
 
@@ -236,7 +237,7 @@ def cargo_build():
     """Build vharness and the git-ai binary from /repo's *current working tree*
     with features test-support,verif into .cache/target (incremental)."""
     with Lock("cargo.lock"):
-        hdir = os.path.join(VERIF, "harness")
+        hdir = HARNESS_DIR
         lock_src = os.path.join(REPO, "Cargo.lock")
         lock_dst = os.path.join(hdir, "Cargo.lock")
         env = dict(os.environ, CARGO_TARGET_DIR=TARGET, CARGO_NET_OFFLINE="true")
